@@ -10,19 +10,14 @@ VERIF = os.path.dirname(HERE)
 sys.path.insert(0, VERIF)
 
 ALL = ["C%02d" % i for i in range(1, 21)]
-NA = {
-    "C05": "every clause (eigen-residual, M-orthonormality, extremality, SVD reconstruction) quantifies over spectra and "
-           "floating-point results; the only structural parts (argument validation, dispatch) are decided under C11/C18; no "
-           "sound static argument in reach bounds the rest",
-    "C06": "the property is the numerical correctness of a multi-term analytic backward formula (value, vector, M-value, "
-           "M-vector, parallel terms, degeneracy masks); static rules can decide arity/create_graph/option forwarding only, "
-           "which is not a meaningful part of this property",
-}
+NA = {}
 TECH = {
     "C01": "CFG typestate (warn-or-converged), def-use provenance of the stopping threshold, sibling protocol cross-check",
     "C02": "autograd-Function contract rules over ast (arity, None slots, create_graph, allow_unused, option splat, layout), Hermitian-adjoint idiom, sign parity",
     "C03": "CFG typestate + path-wise value numbering (returned-is-checked, zero-residual shortcut), best-point bookkeeping",
     "C04": "autograd-Function contract rules, implicit-function-theorem system shape, useobjparams pairing",
+    "C05": "non-commutative word normalisation of the generalised-eigenproblem reduction and of tallqr, slice/table agreement, Rayleigh-Ritz structure of Davidson, Gram/factor pairing of svd",
+    "C06": "autograd-Function contract of symeig_torchfcn / degen_symeig, polynomial normal form of the A and M pull-back cotangents, projector branch cross-check, dense backward structure",
     "C07": "exact rational arithmetic on the tableau literals: Butcher order conditions by rooted trees; role/taint check of the steppers",
     "C08": "autograd-Function contract rules, alias (taint) analysis for in-place updates of apply outputs",
     "C09": "layout agreement between wrappers and Function.forward, sibling decoration, dispatch exhaustiveness",
